@@ -253,7 +253,7 @@ def main():
         "notes": "exit 0 held / 1 VIOLATION / 2 harness error. VERIF_SEED seeds every Hypothesis shard; VERIF_BUDGET_S bounds "
                  "the wall time (unfinished shards are reported as inconclusive, never as violations). KNOWN_FINDINGS.txt lists "
                  "open findings (none) and the twelve fixed defects; replay/<ID>/reg-*.json are their regression inputs; seeded/ "
-                 "holds 54 confirmed breaking changes written by independent sub-agents; mutants/ the mutation and "
+                 "holds 60 confirmed breaking changes written by independent sub-agents; mutants/ the mutation and "
                  "benign-refactoring campaigns.",
     }
     path = os.path.join(HERE, "MANIFEST.json")
